@@ -29,6 +29,11 @@ def _lookups(ix):
 def snap(obj):
     '''sim.snap.snap plus the label -> position lookups of every index involved.'''
     s = _snap(obj)
+    if hasattr(obj, 'dtypes') and hasattr(obj, 'columns'):
+        try:
+            s = dict(s, dtypes=[str(x) for x in obj.dtypes.values.tolist()])
+        except Exception as e:  # noqa
+            s = dict(s, dtypes='raise:' + type(e).__name__)
     if isinstance(obj, IndexBase):
         s = dict(s, lookups=_lookups(obj))
     elif hasattr(obj, 'index') and isinstance(getattr(obj, 'index', None), IndexBase):
@@ -473,7 +478,11 @@ class AliasWorld(WorldBase):
             if kind in ('Series', 'SeriesHE'):
                 cls = getattr(sf, kind)
                 a = self._keep(self._mk_array(nr, dk, w, layout=op['layout']), 'Series values')
-                r = route % 5
+                r = route % 6
+                if r == 5 and nr:
+                    # one element for every label, given as a 0-dimensional array the caller keeps
+                    z = self._keep(self._mk_array(1, dk, w).reshape(()), 'Series 0-d value')
+                    return cls(z, index=index_arg(nr, 0), name=name), 'Series(array0d)'
                 if r == 0:
                     return cls(a, index=index_arg(nr, 0), name=name), 'Series(array)'
                 if r == 1:
